@@ -172,6 +172,7 @@ func runC02(c *Ctx) {
 	voteSignBytesRules(c)
 	commitVoteRules(c)
 	validatorSetRoles(c)
+	blockSyncRules(c)
 
 	// ---- Q: sweep every comparison involving TotalVotingPower() ---------------------------------
 	type want struct{ fn, class, x, recv, why string }
